@@ -53,6 +53,39 @@ SPECIAL = [["default"], ["name", ""], ["name", "list"]]
 UNIV = ["s:a", "s: b", "s:\u2502 c", "s:\u251c\u2500\u2500 d", "i:7", "s:e e", "e:1", "s:`-", "t:1,2", "s:\u2570\u2500 x", "s:|", "s:+- z",
         "i:-3", "s:\U0001f333"]
 REPR_MODES = ["fmt", "call", "default"]
+# renderings that are empty, whitespace only, or start / end with blanks, tabs, line breaks: through the data objects
+# (UNIV_WS with repr "{node.data}"), through a template without fields (""), a template / a callback that add white space
+UNIV_WS = ["s:", "s: ", "s:a ", "s: a", "s:\t", "s:a\t", "s:x\n", "s:\n", "s:  ", "s:a  b ", "s:\u3000", "s:b", "s: \u2502 ", "s:\r"]
+WS_MODES = ["fmt", "empty", "wsfmt", "wscall"]
+
+
+def repr_arg(mode):
+    if mode == "fmt":
+        return "{node.data}"
+    if mode == "call":
+        return lambda n: f"<{n.data}>#{len(n.children)}"
+    if mode == "empty":
+        return ""
+    if mode == "wsfmt":
+        return "{node.data} \t"
+    if mode == "wscall":
+        return lambda n: "\t" + str(n.data) + "  "
+    return None
+
+
+def expected_rend(mode, typed, n):
+    """what the repr argument renders for node n, computed from the data object alone"""
+    if mode == "fmt":
+        return f"{n._data}"
+    if mode == "call":
+        return f"<{n._data}>#{len(n._children or [])}"
+    if mode == "empty":
+        return ""
+    if mode == "wsfmt":
+        return f"{n._data} \t"
+    if mode == "wscall":
+        return "\t" + str(n._data) + "  "
+    return f"{n.kind} \u2192 {n._data}" if typed else f"{n._data!r}"
 TITLE_TEXT = "My \u2514 title"
 JOINS = ["\n", ", ", "", "\u2502\n"]
 
@@ -292,7 +325,9 @@ class Prop:
             "17 custom tuples with an EMPTY string in every single position / equal / multi-character elements on every shape <= 3 nodes and "
             "two larger ones; 4 fixed + 4 (quick) / 30 (thorough) ABANDONED-GENERATOR cases (format_iter consumed for k lines for every k, "
             "dropped or kept; repr callbacks raising at the k-th call; then this tree and an unrelated tree formatted completely and the "
-            "kept generators resumed); 4 custom tuples with UNEQUAL segment widths everywhere (exact-prefix oracle, no decoding); per (tree, style): Tree.format_iter "
+            "kept generators resumed); WHITE-SPACE renderings (data '', ' ', 'a ', tabs, line breaks ...; repr '' / templates and callbacks adding blanks) with the "
+            "all-blank styles space1..4, blank custom tuples and others on every shape <= 3 nodes and two larger ones, lines compared "
+            "byte-exactly; 4 custom tuples with UNEQUAL segment widths everywhere (exact-prefix oracle, no decoding); per (tree, style): Tree.format_iter "
             "for title in {default, False, True, text, ''}, Node.format_iter for EVERY node as start with add_self on/off, "
             "format(join=j) for the tree and every node; repr as format string, callable or the class default; plain and typed trees; "
             "data strings that themselves look like connectors.  distinct = distinct (shape, style set, repr mode, typed); "
@@ -324,15 +359,16 @@ class Prop:
     )
 
     # ----- generation
-    def _desc(self, shape, styles, i, typed=False, ops=None, phases=None, abandon=False):
+    def _desc(self, shape, styles, i, typed=False, ops=None, phases=None, abandon=False, ws=None):
         same = (i % 5 == 2)     # all nodes carry the same data object: siblings are == but not identical
-        nodes = B.shape_to_nodes(shape, lambda k, d, s: ((i if same else k * 5 + i) % len(UNIV), ("k%d" % (k % 2)) if typed else None, f"id{k}"))
+        univ = UNIV_WS if ws else UNIV
+        nodes = B.shape_to_nodes(shape, lambda k, d, s: ((i if same else k * 5 + i) % len(univ), ("k%d" % (k % 2)) if typed else None, f"id{k}"))
         n = B.nodes_size(nodes)
         # start nodes of Node.format_iter (pre-order indices): all of them in small trees, a spread of 7 in large ones
         # (the deepest node is added in run()); Node.format(join=) on the first and last of them
         starts = None if n <= 6 else sorted({0, n // 6, n // 3, n // 2, 2 * n // 3, 5 * n // 6, n - 1})
-        return dict(typed=typed, univ=UNIV, nodes=nodes, name="T%d" % (i % 3), styles=styles,
-                    repr=REPR_MODES[i % 3], title=TITLE_TEXT, join=JOINS[i % len(JOINS)], starts=starts,
+        return dict(typed=typed, univ=univ, nodes=nodes, name="T%d" % (i % 3), styles=styles,
+                    repr=(ws or REPR_MODES[i % 3]), title=TITLE_TEXT, join=JOINS[i % len(JOINS)], starts=starts,
                     **({"ops": ops} if ops else {}), **({"phases": phases} if phases else {}),
                     **({"abandon": True} if abandon else {}))
 
@@ -375,6 +411,19 @@ class Prop:
         for j, shape in enumerate([sh for n in range(1, 4) for sh in H.forests(n)] + [_L2, _S1]):
             yield self._desc(shape, EDGE[j % 2::2] if tier == "quick" and j < 8 else EDGE, 3 * j + 2, typed=(j == 5))
             i += 1
+        # WHITE SPACE: renderings that are empty / blank / start or end with blanks, tabs, line breaks, with every kind of style
+        # incl. the all-blank ones; lines are compared byte-exactly (nothing in this module strips)
+        ws_styles = [["name", "space1"], ["name", "space2"], ["name", "space3"], ["name", "space4"], ["default"], ["name", "lines32c"],
+                     ["name", "ascii11"], ["custom", ["  ", "  ", "  ", "  "]], ["custom", [" ", "\t", " \t", "\t ", "  ", "\t\t"]],
+                     ["custom", ["", "", "- ", "- ", "", ""]], ["name", "list"]]
+        ws_shapes = [sh for n in range(1, 4) for sh in H.forests(n)] + [_L2, _S1]
+        for j, shape in enumerate(ws_shapes):
+            for m, wmode in enumerate(WS_MODES):
+                if tier == "quick" and j < 8 and m != j % 4:
+                    continue
+                sub = ws_styles if tier != "quick" or j >= 8 else ws_styles[(j + m) % 2::2]
+                yield self._desc(shape, sub, 7 * j + m, typed=(j == 6 and wmode != "fmt"), ws=wmode)
+                i += 1
         # ABANDONED generators: format_iter() consumed for k lines (every k) and dropped or kept, repr callbacks that raise at
         # their k-th call; then the same tree AND an unrelated tree are formatted completely, the kept generators are resumed
         aband = [(_L2, None, None), (_S1, None, [[["move_top", 1, 0]]]), (_L3, [["remove_keep", 1]], [[]]), ((((((),),),),), None, None)]
@@ -443,12 +492,7 @@ class Prop:
         B.add_nodes(tree._root, desc["nodes"], U, typed)
         n_applied = apply_ops(tree, desc.get("ops") or [], U, typed)
         mode = desc["repr"]
-        if mode == "fmt":
-            rarg = "{node.data}"
-        elif mode == "call":
-            rarg = lambda n: f"<{n.data}>#{len(n.children)}"  # noqa: E731
-        else:
-            rarg = None
+        rarg = repr_arg(mode)
         join = desc["join"]
         ttext = desc["title"]
         titles = [None, False, True, ttext, ""]
@@ -467,12 +511,7 @@ class Prop:
                         objs[k][2], objs[k][3] = st[1][2], st[1][3]
                 n_applied += apply_ops(tree, phases[ph - 1], U, typed)
             nodes = B.all_nodes(tree._root)
-            if mode == "fmt":
-                rend = {id(n): f"{n._data}" for n in nodes}
-            elif mode == "call":
-                rend = {id(n): f"<{n._data}>#{len(n._children or [])}" for n in nodes}
-            else:
-                rend = {id(n): (f"{n.kind} \u2192 {n._data}" if typed else f"{n._data!r}") for n in nodes}
+            rend = {id(n): expected_rend(mode, typed, n) for n in nodes}
             snodes, jnodes = self.select(nodes, desc.get("starts"))
             kept = self.abandon(tree, nodes, snodes, objs, rarg) if desc.get("abandon") else []
             obs = [self.observe(tree, snodes, jnodes, a, rarg, titles, join) for a in objs]
@@ -491,9 +530,7 @@ class Prop:
                     other = H.Tree("other")
                     B.add_nodes(other._root, B.shape_to_nodes(_L2, lambda k, d, s: ((k * 3 + 1) % len(desc["univ"]), None, f"o{k}")), U, False)
                 o_nodes = B.all_nodes(other._root)
-                o_rend = ({id(n): f"{n._data}" for n in o_nodes} if mode == "fmt" else
-                          {id(n): f"<{n._data}>#{len(n._children or [])}" for n in o_nodes} if mode == "call" else
-                          {id(n): f"{n._data!r}" for n in o_nodes})
+                o_rend = {id(n): expected_rend(mode, False, n) for n in o_nodes}
                 o_sn, o_jn = self.select(o_nodes, None)
                 o_obs = [self.observe(other, o_sn, o_jn, a, rarg, titles, join) for a in objs[:2]]
                 for st, o in zip(cur, o_obs):
@@ -680,7 +717,7 @@ class Prop:
             bnodes = [x for r in roots for x in branch(r)]
             if ti == "":
                 # an empty title text is outside the property statement: accept no line or an empty line
-                if ob[0] == 0 and ob[1][:1] == [""]:
+                if ob[0] == 0 and ob[1][:1] == [""] and len(ob[1]) == len(bnodes) + 1:
                     ob = [0, ob[1][1:]]
                 f = self.check_lines(what, segs, ob, [], roots, bnodes, rend, None)
             else:
